@@ -11,6 +11,7 @@ K  extracted model fs_solve (Model/FluxSolver.v) fed with the implementation's o
    the generated ground_state_ansatz and sign table are compared with the Python functions on n = 3..400."""
 from lib import *  # noqa
 import gen
+import argforms as AF
 from koala.lattice import Lattice, LatticeException
 import koala.flux_finder.flux_finder as ffm
 from koala.flux_finder import pathfinding as pf
@@ -125,6 +126,31 @@ def targets_for(lat, rng, tier, exhaustive_max, dense=False):
             dens = [0.03, 0.1, 0.5, 0.9, 0.97, 0.5][j % 6] if not dense else [0.5, 0.4, 0.6][j % 3]
             t = np.where(rng.uniform(size=F) < dens, -1, 1).astype(np.int8 if j % 2 == 0 else np.int64)
             out.append((t, rnd_guess() if j % 3 else None))
+    return out
+
+
+# ------------------------------------------------------------------ argument forms (argforms.py)
+# target sector / initial guess: +-1 arrays whose dtype and memory layout are not part of their value (the solver's result, int8
+# bonds, must be the same).  The harness' own flux formula and the model always receive the plain values.
+TG_FORMS = ["int8", "int16", "int32", "int64", "float64", "float32", "int8+readonly", "int64+readonly", "float64+readonly",
+            "int8+strided", "int64+strided", "float64+strided"]
+TG_EXCLUDED = {"target/guess:list": "type hints say np.ndarray; a list guess raises TypeError in ujk[p.edges] (a list target happens to work via list.copy() and broadcasting)",
+               "target/guess:tuple": "type hints say np.ndarray; tuple has no .copy() (AttributeError)"}
+
+
+def arg_forms(res, conv, target, guess):
+    """(target, guess) as handed to the solver; None (default argument) stays None.  Form chosen from the values."""
+    out = []
+    for name, a, other in (("target_flux_sector", target, guess), ("initial_guess", guess, target)):
+        if a is None:
+            AF.note(res, name, "None(default)")
+            out.append(None)
+            continue
+        form = AF.pick(TG_FORMS, name, conv, np.asarray(a, dtype=np.int64), None if other is None else np.asarray(other, dtype=np.int64))
+        AF.note(res, name, form)
+        out.append(AF.as_form(a, form, base=np.int64))
+    for k, why in TG_EXCLUDED.items():
+        AF.exclude(res, "ujk_from_fluxes/find_flux_sector", k, why)
     return out
 
 
@@ -244,8 +270,7 @@ def eval_lattice(ctx, case, lat, combos, label):
             res.count(fam, nontrivial_key=(digest(case), conv, digest([t_eff.tolist(), g_eff.tolist()])) if D >= 2 else None)
             b = "0" if D == 0 else "1" if D == 1 else "2-3" if D <= 3 else "4-10" if D <= 10 else ">10"
             stats[b] = stats.get(b, 0) + 1
-            t_arg = None if target is None else target.copy()
-            g_arg = None if guess is None else guess.copy()
+            t_arg, g_arg = arg_forms(res, conv, target, guess)
             fp0 = fingerprint(lat, t_arg, g_arg)
             r, calls = call_solver(lat, conv, t_arg, g_arg)
             fp1 = fingerprint(lat, t_arg, g_arg)
